@@ -78,6 +78,13 @@ def Grammar.lookup (g : Grammar) (name : String) : Option Rule :=
 
 def Grammar.defines (g : Grammar) (name : String) : Bool := (g.lookup name).isSome
 
+/-- the optimizer's fused trivia rule: the entry `SKIP` *with modifier `SILENT_ATOMIC`* (which
+    no grammar rule can have); a grammar rule that happens to be called SKIP is not it -/
+def Grammar.fusedSkip (g : Grammar) : Option Rule :=
+  match g.lookup "SKIP" with
+  | some r => if r.mod == SILENT + ATOMIC then some r else none
+  | none => none
+
 def Grammar.uprop (g : Grammar) (name : String) (c : CP) : Bool :=
   match g.usets.find? (·.1 == name) with
   | none => false
